@@ -519,6 +519,14 @@ func (e *SpecEnv) eval(ex ast.Expr) TV {
 		}
 		return e.fail("unsupported literal %s", n.Value)
 	case *ast.SelectorExpr:
+		if dn := dottedName(n); dn != "" {
+			root := strings.SplitN(dn, ".", 2)[0]
+			if _, isVar := e.vars[root]; !isVar {
+				if sig, ok := e.x.prog.spec.sigs[dn]; ok && len(sig.args) == 0 {
+					return TV{specTerm{Term{dn, sig.res}}, nil}
+				}
+			}
+		}
 		if id, ok := n.X.(*ast.Ident); ok {
 			if _, isVar := e.vars[id.Name]; !isVar {
 				if tv, ok := e.lookupPkgConst(id.Name, n.Sel.Name); ok {
@@ -735,6 +743,8 @@ func (e *SpecEnv) binary(n *ast.BinaryExpr) TV {
 		return TV{VScalar{Add(ta, tb)}, a.T} // mathematical
 	case token.SUB:
 		return TV{VScalar{Sub(ta, tb)}, a.T}
+	case token.QUO:
+		return TV{VScalar{App(SInt, "goquo", ta, tb)}, a.T}
 	case token.AND:
 		return TV{VScalar{bitop("band", ta, tb)}, a.T}
 	case token.OR:
